@@ -161,6 +161,17 @@ func (e *e6Ctx) effects(isObj func(ssa.Value) bool, depth int) ([]string, map[st
 				if al, isFresh := root.(*ssa.Alloc); isFresh && isZeroConst(x.Val) && !storePrecedes(al, fa, x) {
 					continue // the zero value of a field of a freshly allocated object: stating it or not is the same effect
 				}
+				// a value chosen by a small pure helper with several returns (replyOpcode(op)): one conditional set per return,
+				// under the helper's own conditions with its parameters replaced by the arguments
+				if cl, isCall := x.Val.(*ssa.Call); isCall {
+					if alts, ok := e.helperAlternatives(cl, pre); ok {
+						base := e.conds(b, pre)
+						for _, a := range alts {
+							lines = append(lines, mergeConds(base, a[0])+"set "+fld+" := "+a[1])
+						}
+						continue
+					}
+				}
 				// a value chosen by an if/else before the store (v := a; if c { v = b }; x.F = v) is the same effect as
 				// storing under the conditions: one conditional set per alternative
 				if ph, isPhi := x.Val.(*ssa.Phi); isPhi && !inCycle(ph.Block()) && ph.Block() == b {
@@ -251,6 +262,26 @@ func (e *e6Ctx) effects(isObj func(ssa.Value) bool, depth int) ([]string, map[st
 				}
 				// getters on the object are not effects
 				if strings.HasPrefix(name, "Get") || strings.HasPrefix(name, "Is") || name == "Type" || name == "String" || name == "Summary" || name == "ParameterRequestList" || name == "OneIANA" {
+					continue
+				}
+				// an argument chosen by an if/else before the call (v := a; if c { v = b }; d.Update(v)) is the same effect as
+				// calling under the conditions
+				split := false
+				for ai, a := range args {
+					ph, isPhi := stripIface(a).(*ssa.Phi)
+					if !isPhi || inCycle(ph.Block()) || !(ph.Block() == b || ph.Block().Dominates(b)) {
+						continue
+					}
+					base := e.conds(b, pre)
+					for i, ev := range ph.Edges {
+						as2 := append([]string{}, as...)
+						as2[ai] = e.path(ev)
+						lines = append(lines, mergeConds(base, e.edgeConds(ph.Block().Preds[i], ph.Block(), pre))+"call "+tgt+name+"("+strings.Join(as2, ", ")+")")
+					}
+					split = true
+					break
+				}
+				if split {
 					continue
 				}
 				lines = append(lines, e.conds(b, pre)+"call "+tgt+name+"("+strings.Join(as, ", ")+")")
@@ -1081,4 +1112,44 @@ func calleeShort(cl *ssa.Call) string {
 		return sf.Name()
 	}
 	return "?"
+}
+
+// helperAlternatives: cl calls an unexported, effect-free module function with one result and more than one return:
+// the (condition prefix, value) pairs of its returns in the caller's terms
+func (e *e6Ctx) helperAlternatives(cl *ssa.Call, pre map[string]bool) ([][2]string, bool) {
+	sf := cl.Call.StaticCallee()
+	if sf == nil || !inModule(sf) || sf.Blocks == nil || token.IsExported(sf.Name()) || sf.Parent() != nil || e.depth >= 3 || sf.Signature.Results().Len() != 1 {
+		return nil, false
+	}
+	rets := returnsOf(sf)
+	if len(rets) < 2 || len(sf.Blocks) > 8 {
+		return nil, false
+	}
+	pure := true
+	allInstrs(sf, func(in ssa.Instruction) {
+		switch t := in.(type) {
+		case *ssa.Store, *ssa.MapUpdate, *ssa.Send, *ssa.Go, *ssa.Defer, *ssa.Panic:
+			pure = false
+		case *ssa.Call:
+			if _, isB := t.Call.Value.(*ssa.Builtin); !isB {
+				pure = false
+			}
+		}
+	})
+	if !pure || inCycle(sf.Blocks[0]) {
+		return nil, false
+	}
+	sub := newE6(e.c, sf)
+	sub.depth = e.depth + 1
+	for i, p := range sf.Params {
+		if i < len(cl.Call.Args) {
+			sub.px.subst[e.c.Sx().Of(p).String()] = e.argDesc(cl.Call.Args[i])
+		}
+	}
+	var out [][2]string
+	for _, rt := range rets {
+		subPre := map[string]bool{}
+		out = append(out, [2]string{sub.conds(rt.Block(), subPre), sub.path(rt.Results[0])})
+	}
+	return out, true
 }
